@@ -675,7 +675,12 @@ MessageReceivedFromGateway(const MessageRef & msgRef, void * userData)
                   const PathMatcherEntry * e = _subscriptions.GetEntries()[depth].Get(fixPath);
                   if (e)
                   {
-                     const QueryFilter * subscriptionFilter = e->GetFilter()();
+                     const ConstQueryFilterRef oldFilterRef = e->GetFilter();  // held so that the old filter stays valid during the traversal below
+                     const QueryFilter * subscriptionFilter = oldFilterRef();
+
+                     // Set e's filter to the new filter first, so that the traversal's callback can tell which nodes our other subscriptions still match
+                     (void) _subscriptions.SetFilterForEntry(fixPath, filter);  // FogBugz #5803
+
                      if ((GetSubscriptionsEnabled())&&((filter() != NULL)||(subscriptionFilter != NULL)))
                      {
                         // If the filter is different, then we need to change our subscribed-set to
@@ -688,9 +693,6 @@ MessageReceivedFromGateway(const MessageRef & msgRef, void * userData)
                            (void) temp.DoTraversal((PathMatchCallback)ChangeQueryFilterCallbackFunc, this, GetGlobalRoot(), false, args);
                         }
                      }
-
-                     // And now, set e's filter to the new filter.
-                     (void) _subscriptions.SetFilterForEntry(fixPath, filter);  // FogBugz #5803
                   }
                   else
                   {
@@ -1324,7 +1326,17 @@ ChangeQueryFilterCallback(DataNode & node, void * ud)
    ConstMessageRef constMsg2 = node.GetData();
    const bool oldMatches = ((constMsg1() == NULL)||(oldFilter == NULL)||(oldFilter->Matches(constMsg1, &node)));
    const bool newMatches = ((constMsg2() == NULL)||(newFilter == NULL)||(newFilter->Matches(constMsg2, &node)));
-   if (oldMatches != newMatches) NodeChangedAux(node, constMsg2, oldMatches?NodeChangeFlags(NODE_CHANGE_FLAG_ISBEINGREMOVED):NodeChangeFlags());
+   if (oldMatches != newMatches)
+   {
+      if (oldMatches)
+      {
+         // The node no longer matches the subscription whose filter was changed, but if another
+         // of our subscriptions still matches it, then our client shouldn't be told that it's gone.
+         ConstMessageRef constMsg3 = node.GetData();
+         if (_subscriptions.MatchesNode(node, constMsg3, 0)) return node.GetDepth();
+      }
+      NodeChangedAux(node, constMsg2, oldMatches?NodeChangeFlags(NODE_CHANGE_FLAG_ISBEINGREMOVED):NodeChangeFlags());
+   }
    return node.GetDepth();  // continue traversal as usual
 }
 
